@@ -3,9 +3,17 @@
  * inside each harness body.  allocators.c itself is verified by the plain-CBMC proof
  * "allocators_plain". */
 #include <stddef.h>
+#include "stubs/alloc_model.h"
 typedef void *(*_cbor_malloc_t)(size_t);
 typedef void *(*_cbor_realloc_t)(void *, size_t);
 typedef void (*_cbor_free_t)(void *);
 _cbor_malloc_t _cbor_malloc;
 _cbor_realloc_t _cbor_realloc;
 _cbor_free_t _cbor_free;
+/* Taking the addresses here makes the model functions candidates of CBMC's function-pointer removal
+ * already in the library-stage binary (needed when --replace-calls is run on it). */
+void verif_bind_allocator(void) {
+  _cbor_malloc = v_malloc;
+  _cbor_realloc = v_realloc;
+  _cbor_free = v_free;
+}
